@@ -106,7 +106,7 @@ def view_coherence(ctx, d1):
                 else:
                     if f.cls is None:
                         continue
-                    is_indexer = rel == IX and recv == 'self' and any(
+                    is_indexer = rel == IX and (recv == 'self' or recv in fresh) and any(
                         k.name in ('ChemicalIndexer', 'MaterialIndexer') for k in f.cls.mro())
                     is_stream_imol = rel in (ST, MS) and (storage.resolve(recv, amap).endswith('._imol') or recv.endswith('_imol'))
                     if not (is_indexer or is_stream_imol):
